@@ -19,8 +19,8 @@ from vf.core import exc_key
 LEVEL = "exploration"
 RULE = ("bit formats = ordered tuples of field widths >= 1; quick: every format of total width 1..8 with every vector "
         "of in-range field values (43 690 cases, exhaustive) and every format of total width 9..16 (65 280 formats) "
-        "with 3 value vectors each (all ones, alternating, seeded random incl. over-wide and negative values for "
-        "fields wider than one bit); thorough: exhaustive up to total width 10 (699 050 cases) and 8 vectors per "
+        "with 2 value vectors each (all ones, seeded random incl. over-wide and negative values for "
+        "fields wider than one bit; thorough adds alternating bits and more random ones); thorough: exhaustive up to total width 10 (699 050 cases) and 8 vectors per "
         "format for 9..16 wide ones; seeded random formats of total width up to 256 bits with explicit size, "
         "reverse, offsets and random neighbouring bytes for packifyInto, arbitrary byte strings for unpackify; "
         "scalar codecs: bytify/unbytify all n < 2**16 and -n-1 at sizes 0..3 (quick: one size per n, rotating) and "
@@ -169,7 +169,7 @@ def value_vectors(widths, rng, k):
     """k sampled value vectors for one format (one-bit fields stay 0/1)."""
     out = [[(1 << w) - 1 for w in widths],
            [(0x5555555555555555555 >> (i & 1)) & ((1 << w) - 1) for i, w in enumerate(widths)]]
-    while len(out) < k:
+    while len(out) < max(k, 3):
         v = []
         for w in widths:
             if w == 1:
@@ -185,6 +185,8 @@ def value_vectors(widths, rng, k):
                 else:
                     v.append(rng.choice((0, 1 << (w - 1), (1 << w) - 1)))
         out.append(v)
+    if k == 2:
+        return [out[0], out[2]]       # all ones + one random vector
     return out[:k]
 
 
@@ -480,7 +482,7 @@ def run(ctx):
                 "example": {"fmt": "1 3 2 2", "fields": [1, 4, 0, 3], "packed_hex": fnref.ref_pack((1, 3, 2, 2), (1, 4, 0, 3)).hex()}})
 
     wide = [list(c) for w in range(9, 17) for c in fnref.compositions(w)]
-    k = ctx.pick(3, 8)
+    k = ctx.pick(2, 8)
     for ch in fnref.chunks(wide, ctx.pick(10, 48)):
         jobs.append({"kind": "sampled", "formats": ch, "k": k})
     nwide = ctx.pick(4000, 160000)
